@@ -33,6 +33,13 @@ import (
 //     offer, or between SetRemoteDescription(offer) and CreateAnswer)
 //   × empty interceptor registry | default interceptors (NACK/RTX, TWCC, reports)
 //   + usually a data channel in the same bundle.
+// Semantics part (further cases): the same configurations under Configuration.SDPSemantics other than the default:
+//   Plan-B on both peers | Plan-B offerer with a UnifiedPlanWithFallback answerer (it gets a Plan-B description and has
+//   to answer in kind) | UnifiedPlanWithFallback on both peers. With Plan-B descriptions all tracks of one kind of a
+//   peer are sources of ONE m-section (mid "audio"/"video"), so "the SSRC / msid the sender's description announces for
+//   the track" is a per-source statement (a=ssrc:<n> msid:<stream> <track>), not a per-section one; a Plan-B answerer
+//   that only receives a kind holds a receiving transceiver of that kind (recvonly, or the sendrecv default), which is
+//   how a pion Plan-B peer accepts media.
 // Every written packet has a random payload of 1–1100 bytes that starts with (track index, packet number), a random
 // marker, a garbage caller-side SSRC/payload type, increasing sequence numbers and timestamps, and a header of the
 // shape class drawn for its track (c23_hdr_test.go: extension block in one of three forms, CSRC list, both, neither).
@@ -76,7 +83,38 @@ type c23Cfg struct {
 	ntracks       int
 	senderAnswers bool
 	interceptors  bool
+	sem           int // c23Sem*: Configuration.SDPSemantics of the two peers
 }
+
+const (
+	c23SemUnified         = iota // both peers: default (Unified Plan)
+	c23SemPlanB                  // both peers: SDPSemanticsPlanB
+	c23SemPlanBToFallback        // offerer SDPSemanticsPlanB, answerer SDPSemanticsUnifiedPlanWithFallback
+	c23SemFallback               // both peers: SDPSemanticsUnifiedPlanWithFallback (Unified Plan descriptions)
+)
+
+var c23SemNames = []string{"unified-plan", "plan-b", "plan-b-offerer+fallback-answerer", "fallback-both"} //nolint:gochecknoglobals
+
+// c23SemOf is the Configuration.SDPSemantics of one peer (0 = offerer, 1 = answerer).
+func c23SemOf(sem, side int) SDPSemantics {
+	switch sem {
+	case c23SemPlanB:
+		return SDPSemanticsPlanB
+	case c23SemPlanBToFallback:
+		if side == 0 {
+			return SDPSemanticsPlanB
+		}
+
+		return SDPSemanticsUnifiedPlanWithFallback
+	case c23SemFallback:
+		return SDPSemanticsUnifiedPlanWithFallback
+	}
+
+	return SDPSemanticsUnifiedPlan
+}
+
+// c23SemPlanBDescriptions: the descriptions of this pair carry all tracks of a kind in one m-section.
+func c23SemPlanBDescriptions(sem int) bool { return sem == c23SemPlanB || sem == c23SemPlanBToFallback }
 
 func (c c23Cfg) String() string {
 	side := "offerer-sends"
@@ -88,7 +126,12 @@ func (c c23Cfg) String() string {
 		ic = "default-interceptors"
 	}
 
-	return fmt.Sprintf("%s/%s/%dtracks/%s/%s", c23Codecs[c.codec].name, c23MENames[c.me], c.ntracks, side, ic)
+	out := fmt.Sprintf("%s/%s/%dtracks/%s/%s", c23Codecs[c.codec].name, c23MENames[c.me], c.ntracks, side, ic)
+	if c.sem != c23SemUnified {
+		out += "/" + c23SemNames[c.sem]
+	}
+
+	return out
 }
 
 // c23Engine builds the media engine of one peer (nil = rig default = RegisterDefaultCodecs).
@@ -159,6 +202,7 @@ type c23Track struct {
 
 	// expectations read from the descriptions
 	mid        string
+	secSources int // media sources announced in the track's section of the sender's description
 	ssrc       uint32
 	rtxSSRC    uint32
 	hasRTX     bool
@@ -223,7 +267,7 @@ func (t *c23Tap) BindLocalStream(_ *interceptor.StreamInfo, w interceptor.RTPWri
 }
 
 // c23NewPC is rigNewPC with the tap in front of (and optionally the default interceptors behind) the SRTP writer.
-func c23NewPC(me *MediaEngine, defaults, twccHdr bool, tap *c23Tap) (*PeerConnection, error) {
+func c23NewPC(me *MediaEngine, defaults, twccHdr bool, tap *c23Tap, sem SDPSemantics) (*PeerConnection, error) {
 	se := rigSettingEngine()
 	if me == nil {
 		me = &MediaEngine{}
@@ -245,7 +289,7 @@ func c23NewPC(me *MediaEngine, defaults, twccHdr bool, tap *c23Tap) (*PeerConnec
 	}
 
 	return NewAPI(WithSettingEngine(se), WithMediaEngine(me), WithInterceptorRegistry(reg)).
-		NewPeerConnection(Configuration{Certificates: []Certificate{rigCert()}})
+		NewPeerConnection(Configuration{Certificates: []Certificate{rigCert()}, SDPSemantics: sem})
 }
 
 const c23IDAlphabet = "abcdefghijklmnopqrstuvwxyzABCDEFGHIJKLMNOPQRSTUVWXYZ0123456789-_"
@@ -281,19 +325,31 @@ func c23SectionOfTrack(d *kit.SDPDesc, stream, id string) *kit.SDPMedia {
 	return nil
 }
 
-// c23AnnouncedSSRC returns the media SSRC of the section: the a=ssrc ids minus the repair members of FID / FEC-FR groups.
-func c23AnnouncedSSRC(m *kit.SDPMedia) (primary, rtx uint32, hasRTX bool, problem string) {
+// c23AnnouncedSSRC returns the media SSRC the section announces for the track (stream, id): the a=ssrc ids of the
+// track's source minus the repair members of FID / FEC-FR groups. Which ids are the track's: the ones that carry an
+// "msid:<stream> <id>" source attribute; a section whose sources carry no msid attribute at all names its one track in
+// a=msid and all of its ids belong to it. (A Unified Plan section has one track; a Plan-B section has one source per
+// track of the kind.) sources = number of media sources (distinct non-repair ssrc ids) of the whole section.
+func c23AnnouncedSSRC(m *kit.SDPMedia, stream, id string) (primary, rtx uint32, hasRTX bool, sources int, problem string) {
 	repair := map[string]bool{}
-	fidFirst := ""
+	var fid [][]string
 	for _, g := range m.AttrAll("ssrc-group") {
 		f := strings.Fields(g)
 		if len(f) == 3 && (f[0] == "FID" || f[0] == "FEC-FR") {
 			repair[f[2]] = true
 			if f[0] == "FID" {
-				fidFirst = f[1]
-				if v, err := strconv.ParseUint(f[2], 10, 32); err == nil {
-					rtx, hasRTX = uint32(v), true
-				}
+				fid = append(fid, f)
+			}
+		}
+	}
+	own := map[string]bool{}
+	perSourceMsid := false
+	for _, v := range m.AttrAll("ssrc") {
+		f := strings.Fields(v)
+		if len(f) == 3 && strings.HasPrefix(f[1], "msid:") {
+			perSourceMsid = true
+			if f[1] == "msid:"+stream && f[2] == id {
+				own[f[0]] = true
 			}
 		}
 	}
@@ -305,20 +361,32 @@ func c23AnnouncedSSRC(m *kit.SDPMedia) (primary, rtx uint32, hasRTX bool, proble
 			continue
 		}
 		seen[f[0]] = true
+		sources++
+		if perSourceMsid && !own[f[0]] {
+			continue
+		}
+		own[f[0]] = true
 		ids = append(ids, f[0])
 	}
 	if len(ids) != 1 {
-		return 0, 0, false, fmt.Sprintf("section announces %d media ssrc ids %v", len(ids), ids)
+		return 0, 0, false, sources, fmt.Sprintf("section announces %d media ssrc ids %v for msid %q %q", len(ids), ids, stream, id)
 	}
-	if fidFirst != "" && fidFirst != ids[0] {
-		return 0, 0, false, fmt.Sprintf("FID group names %s first but the media ssrc is %s", fidFirst, ids[0])
+	for _, f := range fid {
+		switch {
+		case f[1] == ids[0]:
+			if v, err := strconv.ParseUint(f[2], 10, 32); err == nil {
+				rtx, hasRTX = uint32(v), true
+			}
+		case own[f[1]] || own[f[2]]:
+			return 0, 0, false, sources, fmt.Sprintf("FID group names %s first but the media ssrc is %s", f[1], ids[0])
+		}
 	}
 	v, err := strconv.ParseUint(ids[0], 10, 32)
 	if err != nil {
-		return 0, 0, false, "unparsable ssrc " + ids[0]
+		return 0, 0, false, sources, "unparsable ssrc " + ids[0]
 	}
 
-	return uint32(v), rtx, hasRTX, ""
+	return uint32(v), rtx, hasRTX, sources, ""
 }
 
 func c23SectionByMid(d *kit.SDPDesc, mid string) *kit.SDPMedia {
@@ -356,7 +424,7 @@ func c23Expect(t *c23Track, senderSDP, answerSDP *kit.SDPDesc) string {
 	}
 	t.mid = mid
 	var problem string
-	t.ssrc, t.rtxSSRC, t.hasRTX, problem = c23AnnouncedSSRC(sec)
+	t.ssrc, t.rtxSSRC, t.hasRTX, t.secSources, problem = c23AnnouncedSSRC(sec, t.streamID, t.id)
 	if problem != "" {
 		return "no-single-ssrc-announced"
 	}
@@ -510,22 +578,46 @@ func c23Run(run *kit.Run, i int, cfg c23Cfg, nPackets int) { //nolint:gocognit,c
 	dcFirst := r.Bool()
 	bEarly := r.Bool()
 	twccHdr := cfg.interceptors && r.Chance(0.3)
+	// Plan-B descriptions: an answerer that sends nothing of a kind the offerer sends holds a receiving transceiver of
+	// that kind (drawn: recvonly, or the sendrecv default of AddTransceiverFromKind); without one a pion Plan-B answerer
+	// answers the section inactive, which is outside the statement's "negotiated stream".
+	planB := c23SemPlanBDescriptions(cfg.sem)
+	var bRecvKinds []RTPCodecType
+	bRecvSendrecv := map[RTPCodecType]bool{}
+	if planB {
+		for _, kind := range []RTPCodecType{RTPCodecTypeAudio, RTPCodecTypeVideo} {
+			aSends, bSends := false, false
+			for _, t := range cs.tracks {
+				if t.codec.kind == kind {
+					aSends = aSends || t.side == 0
+					bSends = bSends || t.side == 1
+				}
+			}
+			if aSends && !bSends {
+				bRecvKinds = append(bRecvKinds, kind)
+				bRecvSendrecv[kind] = r.Chance(0.35)
+			}
+		}
+	}
 	var layout []string
 	for _, t := range cs.tracks {
 		layout = append(layout, t.String())
 	}
 	cs.desc = fmt.Sprintf("%s dc=%v dcFirst=%v answererAddsBeforeOffer=%v twccHeaderExtensionSender=%v A{%s} B{%s} tracks=[%s]",
 		cfg, withDC, dcFirst, bEarly, twccHdr, meADesc, meBDesc, strings.Join(layout, "; "))
+	for _, kind := range bRecvKinds {
+		cs.desc += fmt.Sprintf(" answererReceives(%s)=%s", kind, map[bool]string{false: "recvonly", true: "sendrecv"}[bRecvSendrecv[kind]])
+	}
 
 	// ---- peers
 	taps := []*c23Tap{{}, {}}
-	pcA, err := c23NewPC(meA, cfg.interceptors, twccHdr, taps[0])
+	pcA, err := c23NewPC(meA, cfg.interceptors, twccHdr, taps[0], c23SemOf(cfg.sem, 0))
 	if err != nil {
 		run.Inconclusive("peerconnection-setup")
 
 		return
 	}
-	pcB, err := c23NewPC(meB, cfg.interceptors, twccHdr, taps[1])
+	pcB, err := c23NewPC(meB, cfg.interceptors, twccHdr, taps[1], c23SemOf(cfg.sem, 1))
 	if err != nil {
 		rigClose(pcA)
 		run.Inconclusive("peerconnection-setup")
@@ -621,6 +713,19 @@ func c23Run(run *kit.Run, i int, cfg c23Cfg, nPackets int) { //nolint:gocognit,c
 				return false
 			}
 			t.sender = s
+		}
+		if side == 1 {
+			for _, kind := range bRecvKinds {
+				var e error
+				if bRecvSendrecv[kind] {
+					_, e = pcB.AddTransceiverFromKind(kind)
+				} else {
+					_, e = pcB.AddTransceiverFromKind(kind, RTPTransceiverInit{Direction: RTPTransceiverDirectionRecvonly})
+				}
+				if e != nil {
+					return false
+				}
+			}
 		}
 
 		return true
@@ -912,6 +1017,30 @@ func c23Run(run *kit.Run, i int, cfg c23Cfg, nPackets int) { //nolint:gocognit,c
 	run.Seen("tracks_in_bundle", strconv.Itoa(cfg.ntracks))
 	run.Seen("sender_side", map[bool]string{false: "offerer", true: "answerer"}[cfg.senderAnswers])
 	run.Seen("interceptors", strconv.FormatBool(cfg.interceptors))
+	run.Seen("sdp_semantics", c23SemNames[cfg.sem])
+	inSection := map[string]int{}
+	for _, t := range cs.tracks {
+		inSection[fmt.Sprintf("%d/%s", t.side, t.mid)]++
+	}
+	several := false
+	for _, t := range cs.tracks {
+		run.Seen("media_sources_in_track_section", strconv.Itoa(t.secSources))
+		if inSection[fmt.Sprintf("%d/%s", t.side, t.mid)] > 1 {
+			several = true
+			if t.remotes > 0 {
+				run.Count("tracks_verified_in_section_shared_with_other_tracks", 1)
+			}
+		}
+	}
+	if planB {
+		run.Count("cases_planb_descriptions", 1)
+		if several {
+			run.Count("cases_planb_several_tracks_in_one_section", 1)
+		}
+		if len(bRecvKinds) > 0 {
+			run.Count("cases_planb_answerer_receive_transceiver", 1)
+		}
+	}
 	if twccHdr {
 		run.Count("cases_with_twcc_header_extension_sender", 1)
 	}
@@ -943,12 +1072,25 @@ func c23Judge(cs *c23Case, t *c23Track, rec *c23Remote) { //nolint:gocognit,cycl
 			rec.ssrc, t.ssrc, t.streamID, t.id), map[string]any{"TrackRemote.SSRC": rec.ssrc, "announced": t.ssrc})
 	}
 	stream, id := rec.tr.StreamID(), rec.tr.ID()
+	// cause: the ids are wrong, or they are the ids the same description announces for ANOTHER source of the same
+	// m-section (sources of one section mixed up) - different causes, different signatures
+	neighbour := func(match func(o *c23Track) bool) (string, string) {
+		for _, o := range cs.tracks {
+			if o != t && o.side == t.side && o.mid == t.mid && match(o) {
+				return ":of-other-source-in-section", fmt.Sprintf("; that is what the same m-section (mid %q, %d media sources) announces for SSRC %d (track #%d)", t.mid, t.secSources, o.ssrc, o.idx)
+			}
+		}
+
+		return "", ""
+	}
 	if rec.stream != t.streamID || stream != t.streamID {
-		cs.violation("track-id-mismatch:stream", t, fmt.Sprintf("TrackRemote.StreamID() = %q (at OnTrack %q), sender track stream id %q", stream, rec.stream, t.streamID),
+		sfx, note := neighbour(func(o *c23Track) bool { return o.streamID != t.streamID && (o.streamID == stream || o.streamID == rec.stream) })
+		cs.violation("track-id-mismatch:stream"+sfx, t, fmt.Sprintf("TrackRemote.StreamID() = %q (at OnTrack %q), sender track stream id %q for SSRC %d%s", stream, rec.stream, t.streamID, t.ssrc, note),
 			map[string]any{"StreamID": stream, "StreamID_at_OnTrack": rec.stream, "expected": t.streamID})
 	}
 	if rec.id != t.id || id != t.id {
-		cs.violation("track-id-mismatch:track", t, fmt.Sprintf("TrackRemote.ID() = %q (at OnTrack %q), sender track id %q", id, rec.id, t.id),
+		sfx, note := neighbour(func(o *c23Track) bool { return o.id == id || o.id == rec.id })
+		cs.violation("track-id-mismatch:track"+sfx, t, fmt.Sprintf("TrackRemote.ID() = %q (at OnTrack %q), sender track id %q for SSRC %d%s", id, rec.id, t.id, t.ssrc, note),
 			map[string]any{"ID": id, "ID_at_OnTrack": rec.id, "expected": t.id})
 	}
 	for _, c := range []struct {
@@ -1113,7 +1255,10 @@ func TestVerifC23(t *testing.T) {
 		"back and compared byte for byte; distinct = distinct configuration + track layout. "+
 		"Lossy part (quick 16 / thorough 160 vnet pairs, default interceptors, 400 packets per track): 1-2 video tracks {VP8,VP9,H264,AV1} x sender side x header shape x "+
 		"transport-cc header-extension sender on|off x loss pattern {runs of 2-3, periodic single, independent 4-12%, random runs}; first transmissions of the chosen packets are dropped so they "+
-		"arrive only as RTX retransmissions; every packet read must be a written (sequence number, payload) pair with the announced SSRC and a negotiated payload type; non-trivial when at least 2 retransmissions were read")
+		"arrive only as RTX retransmissions; every packet read must be a written (sequence number, payload) pair with the announced SSRC and a negotiated payload type; non-trivial when at least 2 retransmissions were read. "+
+		"Semantics part (quick 64 / thorough 576 further loopback configurations, same generator and oracle): Configuration.SDPSemantics {Plan-B both peers, Plan-B offerer + UnifiedPlanWithFallback answerer, "+
+		"UnifiedPlanWithFallback both} x media engine x 1-4 tracks x sender side x interceptors, permuted by the seed; with Plan-B descriptions the tracks of one kind of a peer are sources of one m-section and "+
+		"the announced SSRC / msid is read per source (a=ssrc:<n> msid:<stream> <track>)")
 	defer run.Finish()
 	run.Assume("loopback UDP may drop packets: up to 5% missing per track is tolerated (counted), more makes the case inconclusive")
 	run.Assume("H264/VP9 on the default engine are registered under several payload types: any payload type the applied answer maps to the track's codec name/clock/channels is accepted; the custom engines register one payload type per codec, there the check is exact")
@@ -1138,5 +1283,49 @@ func TestVerifC23(t *testing.T) {
 		c23Run(run, i, cfg, nPackets)
 	})
 	// lossy part (c23_loss_test.go): the same oracle when packets are lost in bursts and return as RTX retransmissions
-	c23Lossy(run, n, kit.N(16, 160))
+	nLossy := kit.N(16, 160)
+	c23Lossy(run, n, nLossy)
+
+	// semantics part: the same configurations and the same oracle under the other Configuration.SDPSemantics settings
+	var semCombos []c23Cfg
+	for _, sem := range []int{c23SemPlanB, c23SemPlanBToFallback, c23SemFallback} {
+		for me := 0; me < 4; me++ {
+			for nt := 1; nt <= 4; nt++ {
+				for side := 0; side < 2; side++ {
+					for ic := 0; ic < 2; ic++ {
+						semCombos = append(semCombos, c23Cfg{sem: sem, me: me, ntracks: nt, senderAnswers: side == 1, interceptors: ic == 1})
+					}
+				}
+			}
+		}
+	}
+	kit.Shuffle(kit.NewRand(kit.Seed(), 0xC23B5E), semCombos)
+	nSem := kit.N(64, 3*len(semCombos))
+	c23Parallel(run, n+nLossy, nSem, 8, func(i, k int) {
+		cfg := semCombos[k%len(semCombos)]
+		cfg.codec = (k/len(semCombos) + k%len(semCombos)) % len(c23Codecs)
+		c23Run(run, i, cfg, nPackets)
+	})
+}
+
+// c23Parallel runs f(base+k, k) for k in [0, n) on `workers` goroutines; the case index (what --replay selects) is base+k.
+func c23Parallel(run *kit.Run, base, n, workers int, f func(i, k int)) {
+	var next atomic.Int64
+	var wg sync.WaitGroup
+	for w := 0; w < workers; w++ {
+		wg.Add(1)
+		go func() {
+			defer wg.Done()
+			for {
+				k := int(next.Add(1) - 1)
+				if k >= n {
+					return
+				}
+				if run.Want(base + k) {
+					f(base+k, k)
+				}
+			}
+		}()
+	}
+	wg.Wait()
 }
